@@ -47,6 +47,19 @@ def _load():
 def _install_live_wrappers():
     BF = _F["BaseFlumine"]
     orig_pop = BF.process_order_package
+    from flumine.order.trade import Trade
+
+    orig_texit = Trade.__exit__
+
+    def trade_exit(self, *a):
+        r = orig_texit(self, *a)
+        run = backtest.CUR
+        y = getattr(run, "_yield_point", None)
+        if y is not None:
+            y()
+        return r
+
+    Trade.__exit__ = trade_exit
 
     def process_order_package(self, pkg):
         if backtest.CUR is not None:
@@ -858,6 +871,21 @@ class LiveRun:
                     n += 1
                 if t.state == "done":
                     self.res.faults["schedule.reply_processed_before_submit_returned"] += 1
+
+    def _yield_point(self):
+        """Pre-emption point inside the processing of a reply (scenario knob yield_pct): a pool thread that has just finished
+        applying one instruction report (it leaves the `with order.trade:` block) may be suspended there, so that other pool
+        threads and the main loop run before the next report is applied - nothing in flumine serialises them. Decided by the
+        scenario's tape, so a replay takes the same decisions."""
+        t = self.current_task
+        if t is None or self.aborting or not self.scenario.get("yield_pct") or threading.current_thread() is not t.thread:
+            return
+        self.n_yields = getattr(self, "n_yields", 0) + 1
+        k = self.tape[(self.n_yields * 13 + 5) % len(self.tape)] if self.tape else 0
+        if k % 100 < self.scenario.get("yield_pct", 0):
+            self.res.faults["schedule.pool_thread_suspended_between_instruction_reports"] += 1
+            self.log.append(("yield", self.n_yields))
+            t.park("mid-reply")
 
     def resume(self, task):
         self.current_task = task
